@@ -12,8 +12,17 @@ satisfying the two decidable hypotheses of `SchedSpecC04`
 
 and **all** op lists (main loops, submit results, job messages in any order).  The driver checks
 both hypotheses on every instance graph extracted from the real configuration.
+
+Second half: the component model `Runahead` of `compute_runahead` / `set_max_future_offset` /
+`release_runahead_tasks` on an explicitly given pool -- count *and* duration limits, future-trigger
+offsets, arbitrary pool changes (the base point may move backward, as after a manual trigger) -- tied
+to the real functions by direct correspondence on a pool stub.  There the full statement is false on
+the code as found (finding `stale-limit-at-stop-point`): `direct_compute_sound_full` is kept as a
+`def`, refuted on a reachable state, and proved with the excluding hypothesis / for the repaired
+early return (`Cfg.guarded`, findings/C04-fix-1.diff).
 -/
 import CylcModel.SchedLemmasC04
+import CylcModel.RunaheadLemmas
 namespace CylcModel.C04
 open CylcModel.Sched
 
@@ -217,5 +226,168 @@ example : basePoint exMoved = some 2 ∧
 
 -- `other_ops_keep_limit`: a non-loop op
 example : Op.subres 1 "a" true 1 ≠ Op.loop := by intro h; cases h
+
+
+end CylcModel.C04
+
+/-! ## (ii) the component model `Runahead`: duration limits, future-trigger offsets, any pool history -/
+
+namespace CylcModel.C04
+open CylcModel.Runahead
+open CylcModel.Sched (sorted_ext lastTake lastTake_eq_get)
+
+/-- **What `Runahead.spec0` is**, for *the* strictly ascending list `L` of exactly the points of the
+recurrences at or after the base point `b`: for `Pn` the (n+1)-th element of `L` (the last one if
+fewer), for a duration `D` the last element of `L` that is no later than `b + D`; `b` if there is none.
+(`specLimit` adds the largest future-trigger offset among pooled tasks and caps at the stop point.) -/
+theorem direct_spec0_meaning (c : Cfg) (b : Int) (L : List Int) (hs : L.Pairwise (· < ·))
+    (hm : ∀ p, p ∈ L ↔ (∃ q ∈ c.seqs, p ∈ q) ∧ b ≤ p) :
+    spec0 c b = match c.limit with
+      | .count n => (match L[n]? with | some p => p | none => L.getLast?.getD b)
+      | .dur d => ((L.filter (· ≤ b + d)).getLast?).getD b := by
+  have hL : L = Runahead.allFrom c b :=
+    sorted_ext _ _ hs (Runahead.sorted_allFrom c b) (fun x => by rw [hm, Runahead.mem_allFrom])
+  subst hL
+  unfold spec0
+  cases c.limit with
+  | count n =>
+    simp only
+    have := lastTake_eq_get (Runahead.allFrom c b) n b
+    unfold lastTake at this
+    rw [this]
+    cases (Runahead.allFrom c b)[n]? <;> rfl
+  | dur d => rfl
+
+/-- a forced `compute_runahead` leaves the specification limit of the current pool and stored offset, in *any* state -/
+theorem direct_compute_forced (c : Cfg) (hwf : wf c = true) (s : St) (b : Int)
+    (hb : Runahead.basePoint c s = some b) :
+    (Runahead.compute c s true).1.limit = some (specLimit c s.maxOff b) :=
+  (Runahead.compute_forced c s hwf).2.2.2 b hb
+
+/-- **full statement** (false on the code as found): after any history of pool changes, offset
+updates, computations and releases, the unforced `compute_runahead` leaves the specification limit
+of the current pool -/
+def direct_compute_sound_full : Prop :=
+  ∀ (c : Cfg), wf c = true → c.guarded = false → ∀ (ops : List Op) (b : Int),
+    Runahead.basePoint c (runSt c ops) = some b →
+    (Runahead.compute c (runSt c ops) false).1.limit = some (specLimit c (runSt c ops).maxOff b)
+
+/-- **proved**: the same, *unless* the limit sits at the stop point and the base point has moved
+backward past the cached one, with the code as found or with an empty pool (`Stale`) -- recomputation,
+cached sequence points and both early returns included -/
+theorem direct_compute_sound_partial (c : Cfg) (hwf : wf c = true) (ops : List Op) (f : Bool) (b : Int)
+    (hb : Runahead.basePoint c (runSt c ops) = some b) (hns : ¬ Stale c (runSt c ops) b ∨ f = true) :
+    (Runahead.compute c (runSt c ops) f).1.limit = some (specLimit c (runSt c ops).maxOff b) :=
+  (Runahead.compute_spec c _ f hwf (Runahead.dinv_run c hwf ops)).2.2.2 b hb hns
+
+/-- with the repaired early return (only when the base point moved forward, or the pool is empty)
+the full statement holds for every non-empty pool -/
+theorem direct_compute_sound_guarded (c : Cfg) (hwf : wf c = true) (hg : c.guarded = true) (ops : List Op)
+    (f : Bool) (b : Int) (hb : Runahead.basePoint c (runSt c ops) = some b)
+    (hne : (runSt c ops).pool.isEmpty = false) :
+    (Runahead.compute c (runSt c ops) f).1.limit = some (specLimit c (runSt c ops).maxOff b) :=
+  direct_compute_sound_partial c hwf ops f b hb (Or.inl (fun h => by
+    rcases h.2.2.2 with h1 | h1
+    · rw [hg] at h1; exact absurd h1 (by simp)
+    · rw [hne] at h1; exact absurd h1 (by simp)))
+
+/-- `P1` on 1..6, limit `P1`, stop point 4 -/
+def exStale : Cfg := { seqs := [[1, 2, 3, 4, 5, 6]], limit := .count 1, start := 1, stop := some 4 }
+
+/-- the pool holds cycle 3 (limit 4 = stop point), then cycle 1 joins (a task triggered by hand) -/
+def exStaleOps : List Op := [.pool [{ pt := 3 }], .offset, .compute false, .pool [{ pt := 1 }, { pt := 3 }], .offset]
+
+/-- **counterexample** on a reachable state: the limit stays at 4 although `RunaheadSpec` of the pool {1, 3} is 2 -/
+theorem direct_compute_sound_counterexample : ¬ direct_compute_sound_full := by
+  intro h
+  have := h exStale (by decide) (by decide) exStaleOps 1 (by decide)
+  revert this
+  decide
+
+/-- **release_sound (component)**: pool becomes `ts`, `set_max_future_offset`, `compute_runahead`,
+`release_runahead_tasks` -- every released point is no later than the specification limit of `ts`
+(with the largest future offset in `ts`), unless `Stale` -/
+theorem direct_release_sound (c : Cfg) (hwf : wf c = true) (ops : List Op) (ts : List Task) (f : Bool) (b : Int)
+    (hb : Runahead.basePoint c (runSt c (ops ++ [.pool ts, .offset])) = some b)
+    (hns : ¬ Stale c (runSt c (ops ++ [.pool ts, .offset])) b ∨ f = true) :
+    ∀ p ∈ (Runahead.release (Runahead.compute c (runSt c (ops ++ [.pool ts, .offset])) f).1).2,
+      p ≤ specLimit c (maxOffOf ts) b := by
+  intro p hp
+  have hlim := direct_compute_sound_partial c hwf (ops ++ [.pool ts, .offset]) f b hb hns
+  have hoff : (runSt c (ops ++ [.pool ts, .offset])).maxOff = maxOffOf ts := (pool_offset_spec c hwf ops ts).2.1
+  obtain ⟨l, hl, hle⟩ := (Runahead.release_spec _).1 p hp
+  rw [hlim, hoff] at hl
+  simp only [Option.some.injEq] at hl
+  omega
+
+/-- **no deadlock (component)**: in the same situation, with or without `Stale`, every
+runahead-limited task of the base cycle is released (base point within the stop point, offsets not negative) -/
+theorem direct_no_deadlock (c : Cfg) (hwf : wf c = true) (ops : List Op) (ts : List Task) (f : Bool) (b : Int)
+    (hb : Runahead.basePoint c (runSt c (ops ++ [.pool ts, .offset])) = some b)
+    (hsp : ∀ sp, c.stop = some sp → b ≤ sp) (hoff : ∀ v, maxOffOf ts = some v → 0 ≤ v) :
+    ∀ t ∈ ts, t.pt = b → t.rh = true →
+      b ∈ (Runahead.release (Runahead.compute c (runSt c (ops ++ [.pool ts, .offset])) f).1).2 := by
+  intro t ht htb hrh
+  generalize hS : runSt c (ops ++ [.pool ts, .offset]) = S at hb
+  have hinv : DInv c S := by rw [← hS]; exact Runahead.dinv_run c hwf _
+  have hSp : S.maxOff = maxOffOf ts ∧ S.pool = ts := by
+    rw [← hS]
+    exact (pool_offset_spec c hwf ops ts).2
+  obtain ⟨_, hmo, hpool, hlimit⟩ := Runahead.compute_spec c S f hwf hinv
+  -- the limit after the computation is at or after the base point
+  have hge : ∃ l, (Runahead.compute c S f).1.limit = some l ∧ b ≤ l := by
+    by_cases hst : Stale c S b
+    · -- early return with the limit at the stop point
+      obtain ⟨hsome, hstop, ⟨pb, hpb, hlt⟩, hg⟩ := hst
+      obtain ⟨l, hl⟩ := Option.isSome_iff_exists.mp hsome
+      cases f with
+      | true =>
+        refine ⟨_, hlimit b hb (Or.inr rfl), ?_⟩
+        exact Runahead.specLimit_ge c _ b (by rw [hSp.1]; exact hoff) hsp
+      | false =>
+        rcases Runahead.compute_shape c S false with ⟨hn, _⟩ | ⟨b1, hb1, _, he⟩ | ⟨b1, hb1, hnot, _⟩
+        · rw [hb] at hn; exact absurd hn (by simp)
+        · refine ⟨l, by rw [he]; exact hl, ?_⟩
+          have : c.stop = some l := by rw [← hstop, hl]
+          exact hsp l this
+        · exfalso
+          rw [hb] at hb1
+          simp only [Option.some.injEq] at hb1
+          subst hb1
+          apply hnot
+          have e1 : (S.limit == c.stop) = true := by rw [hstop]; simp
+          rw [hsome, e1]
+          rcases hg with hg | hg
+          · rw [hg]; simp
+          · rw [hg]; simp
+    · refine ⟨_, hlimit b hb (Or.inl hst), ?_⟩
+      exact Runahead.specLimit_ge c _ b (by rw [hSp.1]; exact hoff) hsp
+  obtain ⟨l, hl, hbl⟩ := hge
+  have := (Runahead.release_spec (Runahead.compute c S f).1).2 l hl t (by rw [hpool, hSp.2]; exact ht) hrh (by omega)
+  rw [htb] at this
+  exact this
+
+/-- duration limit 12 on a 6-hourly and a daily recurrence, stop point 30 -/
+def exDur : Cfg := { seqs := [[0, 6, 12, 18, 24, 30, 36], [0, 24]], limit := .dur 12, start := 0, stop := some 30 }
+
+def exDurPool : List Task := [{ pt := 6 }, { pt := 12, off := some 6 }, { pt := 24 }, { pt := 30 }]
+
+-- the hypotheses hold; duration window, future offset and stop-point cap all bite
+example : wf exDur = true ∧ spec0 exDur 6 = 18 ∧ maxOffOf exDurPool = some 6 ∧
+    specLimit exDur (some 6) 6 = 24 ∧ specLimit exDur (some 6) 18 = 30 ∧ specLimit exDur none 18 = 30 := by decide
+
+-- `direct_release_sound` / `direct_no_deadlock`: 6, 12, 24 are released, 30 is held back
+example : Runahead.basePoint exDur (runSt exDur ([] ++ [.pool exDurPool, .offset])) = some 6 ∧
+    (Runahead.compute exDur (runSt exDur ([] ++ [.pool exDurPool, .offset])) false).1.limit = some 24 ∧
+    (Runahead.release (Runahead.compute exDur (runSt exDur ([] ++ [.pool exDurPool, .offset])) false).1).2
+      = [6, 12, 24] := by decide
+
+-- the situation excluded by `direct_compute_sound_partial` is reachable (and only with the unguarded code)
+example : Stale exStale (runSt exStale exStaleOps) 1 :=
+  ⟨by decide, by decide, ⟨3, by decide, by decide⟩, Or.inl (by decide)⟩
+
+-- with the repaired early return the same history brings the limit down to 2
+example : (Runahead.compute { exStale with guarded := true } (runSt { exStale with guarded := true } exStaleOps) false).1.limit
+    = some 2 := by decide
 
 end CylcModel.C04
